@@ -125,9 +125,11 @@ def _try_call(c):
 
 
 def arg_vectors(tier, rnd):
-    fmts = ["nt", "turtle", "bogus"] if tier == "quick" else ["nt", "tsv_spo", "n3", "turtle", "xml", "json-ld", "turtle_iter", "bogus"]
-    comps = ["none", "gz", "zip", "bogus"] if tier == "quick" else ["none", "gz", "zip", "xz", "bogus"]
-    exs = ["none", "all", "bogus"] if tier == "quick" else ["none", "shape", "cons", "all", "bogus"]
+    # invalid values include case variants and near misses of the valid identifiers, not only an arbitrary string
+    fmts = ["nt", "turtle", "bogus", "NT", "Turtle"] if tier == "quick" else \
+        ["nt", "tsv_spo", "n3", "turtle", "xml", "json-ld", "turtle_iter", "bogus", "NT", "Turtle", "N3", "ttl", "rdf/xml", ""]
+    comps = ["none", "gz", "zip", "bogus", "GZ"] if tier == "quick" else ["none", "gz", "zip", "xz", "bogus", "GZ", "Zip", "gzip", ""]
+    exs = ["none", "all", "bogus", "ALL"] if tier == "quick" else ["none", "shape", "cons", "all", "bogus", "ALL", "Shape", "constraint", ""]
     srcsets = [()] + [(s,) for s in SOURCES] + list(itertools.combinations(SOURCES, 2))
     if tier == "thorough":
         srcsets += list(itertools.combinations(SOURCES, 3))
@@ -303,23 +305,39 @@ def _do_call(shaper, c, workdir):
     return st, text, path, exc, frame
 
 
-def _ctor_kwargs(payload, nsdict):
+TTL_PREFIXES = "@prefix foaf: <http://xmlns.com/foaf/0.1/> .\n@prefix ex: <http://example.org/> .\n@prefix dc: <http://purl.org/dc/terms/> .\n"
+
+
+def base_dict(payload):
+    d = {M.EX: "ex"}
+    if payload.get("shapes_in_dict"):
+        d[M.SHAPES_NS] = "sx"
+    return d
+
+
+def _ctor_kwargs(payload, nsdict, who="A"):
     from shexer import consts as C
     kw = dict(raw_graph=payload["nt"], input_format=C.NT, all_classes_mode=True, instances_report_mode=C.MIXED_INSTANCES, namespaces_dict=nsdict)
+    if who in payload.get("turtle", ""):      # rdflib-parsed channel: the parser reports the prefixes bound in the document
+        kw["raw_graph"] = TTL_PREFIXES + payload["nt"]
+        kw["input_format"] = C.TURTLE
     if payload.get("examples"):
         kw["examples_mode"] = C.ALL_EXAMPLES
+    if payload.get("miniri"):
+        kw["detect_minimal_iri"] = True
     return kw
 
 
 _FRESH = {}
 
 
-def _fresh(payload, c):
+def _fresh(payload, c, who="A"):
     """what a brand-new Shaper (own pristine dictionary) returns for this call: the Fresh of spec/ShaperApi.tla"""
     from shexer.shaper import Shaper
-    key = (payload["gid"], payload.get("examples", False), c["kind"], c["fmt"], c["thr"])
+    key = (payload["gid"], payload.get("examples", False), who in payload.get("turtle", ""), payload.get("shapes_in_dict", False),
+           payload.get("miniri", False), c["kind"], c["fmt"], c["thr"])
     if key not in _FRESH:
-        sh = Shaper(**_ctor_kwargs(payload, {M.EX: "ex"}))
+        sh = Shaper(**_ctor_kwargs(payload, base_dict(payload), who))
         d = tempfile.mkdtemp(prefix="shexer-verif-c18f-")
         try:
             st, text, _p, exc, frame = _do_call(sh, dict(c, sink="string"), d)
@@ -335,18 +353,18 @@ def _run_sequence(payload):
     d = tempfile.mkdtemp(prefix="shexer-verif-c18-")
     events = []
     try:
-        caller_ns = {M.EX: "ex"}
+        caller_ns = base_dict(payload)
         shapers = {}
         for who, c in payload["seq"]:
             if who not in shapers:
                 nsd = caller_ns if payload.get("shared") else dict(caller_ns)
-                st, sh, exc, frame = runner.call_guarded(lambda: Shaper(**_ctor_kwargs(payload, nsd)), timeout=20)
+                st, sh, exc, frame = runner.call_guarded(lambda: Shaper(**_ctor_kwargs(payload, nsd, who)), timeout=20)
                 if st != "ok":
                     events.append(dict(c, shaper=who, status=False, sameAsFresh=False, fileSame=True, exc=exc, frame=frame))
                     continue
                 shapers[who] = sh
             st, text, path, exc, frame = _do_call(shapers[who], c, d)
-            fst, fcanon = _fresh(payload, c)
+            fst, fcanon = _fresh(payload, c, who)
             same = (st == "ok" and fst == "ok" and _canon(c["fmt"], text) == fcanon)
             events.append(dict(c, shaper=who, status=(st == "ok"), sameAsFresh=same, fileSame=True, exc=exc, frame=frame))
         events_caller = sorted(caller_ns.values())
@@ -377,6 +395,18 @@ def sequences(tier, rnd):
             seq = [(cb[2 * k + 1], shex[cb[2 * k]]) for k in range(n)]
             out.append({"id": "s%d" % i, "gid": "small", "nt": nt, "seq": seq, "shared": True})
             i += 1
+    # shared dictionary x rdflib-parsed input (the parser adds the document's prefixes to the dictionary it is given) x a
+    # caller dictionary that already holds the shapes namespace; calls on A before / after B is built
+    for shapes_in_dict in (False, True):
+        for turtle in ("", "A", "B", "AB"):      # which Shapers read the Turtle rendering (with @prefix lines) of the graph
+            for sq in [(("A", 0), ("B", 0)), (("A", 0), ("B", 6)), (("A", 6), ("B", 0), ("A", 0)), (("B", 1), ("A", 0), ("B", 0)), (("A", 12), ("B", 0))]:
+                out.append({"id": "s%d" % i, "gid": "small", "nt": nt, "seq": [(w, ALPHABET[j]) for w, j in sq], "shared": True,
+                            "turtle": turtle, "shapes_in_dict": shapes_in_dict})
+                i += 1
+    # detect_minimal_iri: repeated calls with other thresholds / formats
+    for sq in [(0, 1), (1, 0), (2, 0), (0, 6), (6, 0, 2)]:
+        out.append({"id": "s%d" % i, "gid": "small", "nt": nt, "seq": [("A", ALPHABET[j]) for j in sq], "shared": False, "miniri": True})
+        i += 1
     # examples mode: repeated calls
     for sq in [(0, 0), (0, 6), (6, 0), (0, 1), (0, 0, 0)]:
         out.append({"id": "s%d" % i, "gid": "small", "nt": nt, "seq": [("A", ALPHABET[j]) for j in sq], "shared": False, "examples": True})
